@@ -208,6 +208,8 @@ func VerifC06_Framing() {
 		verifrt.Assert(eqBytes(wins[wi].b, p.file[p.entryOff[i]:p.entryOff[i]+p.entryLen[i]]), "entry window is exactly the i-th entry")
 		verifrt.Assert(interface{}(proc.inserts[i].RevokedCertificate) == wins[wi].obj, "i-th insert carries the i-th entry")
 		verifrt.Assert(proc.inserts[i].Issuer == res.Issuer, "entry is filed under the CRL issuer")
+		last := p.file[p.entryOff[i]+p.entryLen[i]-1]
+		verifrt.Assert((len(proc.snaps[i].Extensions) > 0) == (last&1 == 1), "the consumer sees the entry extensions of THIS entry only (nothing carried over from an earlier entry)")
 		wi++
 	}
 	if s.hasExt {
